@@ -11,6 +11,8 @@ import (
 	"encoding/hex"
 	"fmt"
 	"math/big"
+	"os"
+	"path/filepath"
 	"sync"
 
 	"github.com/ontio/ontology-crypto/keypair"
@@ -26,7 +28,7 @@ import (
 	"verifharness/lib/txgen"
 )
 
-var soloOnce sync.Once
+var soloMu sync.Mutex
 
 // Bookkeeper is the single bookkeeper of every iddrv ledger (the solo configuration is
 // process-global, so all ledgers of one process must share it).
@@ -37,23 +39,75 @@ type Env struct {
 	C      *chain.Chain
 	nonce  uint32
 	LastTs uint32 // timestamp of the last committed block
+	dir    string
+	uses   int
 }
 
+// NewEnv creates a solo ledger in dir.  Creation is serialised: the solo configuration is
+// process-global and genesis.BuildGenesisBlock writes global maps.
 func NewEnv(dir string) (*Env, error) {
-	// The process-global solo configuration is written once; after that ledgers are created
-	// concurrently (chain.Chain.Open only reads the configuration; creating the stores and
-	// executing the genesis block is the expensive part and must not be serialised).
-	bk := Bookkeeper()
-	soloOnce.Do(func() { chain.SetupSoloConfig(bk) })
-	c := &chain.Chain{Dir: dir, BK: bk, BKs: []*account.Account{bk}} // as chain.NewSolo
-	if err := c.Open(); err != nil {
+	soloMu.Lock()
+	defer soloMu.Unlock()
+	c, err := chain.NewSolo(dir, Bookkeeper())
+	if err != nil {
 		return nil, err
 	}
-	e := &Env{C: c, nonce: 5000}
+	e := &Env{C: c, nonce: 5000, dir: dir}
 	if h, err := c.Ledger.GetHeaderByHeight(c.Ledger.GetCurrentBlockHeight()); err == nil {
 		e.LastTs = h.Timestamp
 	}
 	return e, nil
+}
+
+// Pool hands out ledgers to concurrently running histories.  A ledger hosts one history at
+// a time and is reused for up to maxUses histories (identities and contract addresses of
+// different histories are disjoint, so they do not see each other), which keeps the
+// serialised ledger creation off the critical path.
+type Pool struct {
+	mu      sync.Mutex
+	free    []*Env
+	base    string
+	n       int
+	maxUses int
+}
+
+func NewPool(baseDir string, maxUses int) *Pool { return &Pool{base: baseDir, maxUses: maxUses} }
+
+func (p *Pool) Get() (*Env, error) {
+	p.mu.Lock()
+	if n := len(p.free); n > 0 {
+		e := p.free[n-1]
+		p.free = p.free[:n-1]
+		p.mu.Unlock()
+		return e, nil
+	}
+	p.n++
+	dir := filepath.Join(p.base, fmt.Sprintf("ledger-%d", p.n))
+	p.mu.Unlock()
+	return NewEnv(dir)
+}
+
+// Put returns a ledger; broken=true (a commit failed) discards it.
+func (p *Pool) Put(e *Env, broken bool) {
+	e.uses++
+	if broken || e.uses >= p.maxUses {
+		e.Close()
+		os.RemoveAll(e.dir)
+		return
+	}
+	p.mu.Lock()
+	p.free = append(p.free, e)
+	p.mu.Unlock()
+}
+
+func (p *Pool) Close() {
+	p.mu.Lock()
+	defer p.mu.Unlock()
+	for _, e := range p.free {
+		e.Close()
+		os.RemoveAll(e.dir)
+	}
+	p.free = nil
 }
 
 func (e *Env) Close() {
